@@ -1,8 +1,8 @@
 (* C16 — Client/server encodings are lossless.  Property theorems only: each is closed by
    [exact <lemma>] so that the statement is what is pinned.  Print Assumptions is run by the
    driver's audit file on every check. *)
-From Coq Require Import NArith List.
-From LV Require Import Model.XorFloat Proofs.XorFloat.
+From Coq Require Import NArith ZArith List.
+From LV Require Import Model.XorFloat Proofs.XorFloat Model.IntResponse Proofs.IntResponse Model.EventBuf Proofs.EventBuf.
 Import ListNotations.
 Open Scope N_scope.
 
@@ -11,8 +11,8 @@ Open Scope N_scope.
 Theorem C16_xor_roundtrip :
   forall (maxr : N) (fs : list N) (bits pad : list bool),
     Forall (fun f => f < 2 ^ 64) fs -> N.of_nat (length fs) < 2 ^ 64 ->
-    encode all_ones maxr fs = Some bits ->
-    decode (bits ++ pad) = Some fs.
+    XorFloat.encode all_ones maxr fs = Some bits ->
+    XorFloat.decode (bits ++ pad) = Some fs.
 Proof.
   intros maxr fs bits pad HF Hl E.
   rewrite (decode_encode_suffix all_ones maxr fs bits pad HF Hl E).
@@ -24,7 +24,7 @@ Qed.
 Theorem C16_xor_encode_total :
   forall (mask maxr : N) (fs : list N),
     Forall (fun f => f < 2 ^ 64) fs -> maxr + 62 <= u32_max ->
-    exists bits, encode mask maxr fs = Some bits.
+    exists bits, XorFloat.encode mask maxr fs = Some bits.
 Proof. exact encode_total. Qed.
 
 (* Reduced mantissa: the decoder returns, for every position, a value that agrees with the input on
@@ -33,8 +33,8 @@ Theorem C16_xor_mantissa :
   forall (m mask maxr : N) (fs : list N) (bits pad : list bool),
     mask_of (Some m) = Some mask ->
     Forall (fun f => f < 2 ^ 64) fs -> N.of_nat (length fs) < 2 ^ 64 ->
-    encode mask maxr fs = Some bits ->
-    exists ds, decode (bits ++ pad) = Some ds /\
+    XorFloat.encode mask maxr fs = Some bits ->
+    exists ds, XorFloat.decode (bits ++ pad) = Some ds /\
                Forall2 (fun f x => N.land x mask = N.land f mask) fs ds.
 Proof.
   intros m mask maxr fs bits pad _ HF Hl E.
@@ -51,10 +51,58 @@ Theorem C16_xor_mantissa_bits :
     N.shiftr x (52 - m) = N.shiftr f (52 - m).
 Proof. exact mask_keeps_top. Qed.
 
+Open Scope Z_scope.
+(* Integer response columns: every list of i64 values decodes to itself through whichever of the
+   eight layouts (range, delta i8/i16/i32, double-delta i8/i16/i32, plain) the encoder picks, and
+   the encoder's narrowing conversions never fail.  (Model of the code after fix 6c5a64e; before
+   it the unchecked differences overflowed, see known_findings.json F15.) *)
+Theorem C16_int_roundtrip :
+  forall xs : list Z, Forall in_i64 xs -> roundtrip xs = Some xs.
+Proof. exact roundtrip_ok. Qed.
+
+Example C16_int_example :
+  (* layouts actually taken: range, delta-i8, double-delta-i8, plain with a wrapped difference *)
+  (exists s n d, IntResponse.encode [10; 13; 16; 19] = Some (LRange s n d)) /\
+  (exists f d, IntResponse.encode [5; 7; 6; 9] = Some (LDelta W8 f d)) /\
+  (exists f g d, IntResponse.encode [0; 1000; 2001; 3003; 4006] = Some (LDD W8 f g d)) /\
+  roundtrip [-9223372036854775808; 9223372036854775807; 0] =
+    Some [-9223372036854775808; 9223372036854775807; 0].
+Proof. repeat split; try (vm_compute; eauto). Qed.
+
+Close Scope Z_scope.
+
+(* Row API of the binary ingestion message (client side): one push extends what a column buffer
+   denotes by exactly the pushed cell; when an integer column receives a float the cells already
+   there become floats (documented degradation), nothing else changes, rows are never shifted.
+   [i2f] is Rust's `i64 as f64`, a parameter. *)
+Theorem C16_event_push :
+  forall (i2f : Z -> N) (d : coldata) (v : anyval) (len : nat) (d' : coldata),
+    wf d len -> push i2f d v len = Pushed d' ->
+    wf d' (S len) /\
+    denote d' (S len) = map (degrade i2f d d') (denote d len) ++ [cell_of i2f d' v].
+Proof. exact push_ok. Qed.
+
+(* ... and the pushes the client library rejects (assert!/unimplemented!) are exactly: strings into
+   numeric columns and numbers into string columns, a string that would make a string column sparse,
+   anything into a Mixed column *)
+Theorem C16_event_push_rejects :
+  forall (i2f : Z -> N) (d : coldata) (v : anyval) (len : nat),
+    push i2f d v len = PushPanic <->
+    match v, d with
+    | VNull, _ => False
+    | _, CMixed _ => True
+    | VStr _, CEmpty => len <> 0%nat
+    | VStr _, CString data => length data <> len
+    | VStr _, _ => True
+    | (VInt _ | VFloat _), CString _ => True
+    | _, _ => False
+    end.
+Proof. exact push_panics_iff. Qed.
+
 (* non-vacuity: a concrete sequence with repeats, a sign flip, a NaN payload and a subnormal *)
 Example C16_xor_example :
   let fs := [4607182418800017408; 4607182418800017408; 13830554455654793216;
              9221120237041090561; 1; 0; 4607182418800017409] in
-  exists bits, encode all_ones 100 fs = Some bits /\ decode bits = Some fs /\
+  exists bits, XorFloat.encode all_ones 100 fs = Some bits /\ XorFloat.decode bits = Some fs /\
                Nat.ltb 128 (length bits) = true.
 Proof. eexists. split; [vm_compute; reflexivity|]. split; vm_compute; reflexivity. Qed.
